@@ -21,13 +21,15 @@ warnings.filterwarnings("ignore")
 
 X, U = Space({"x": 1}), Space({"u": 1})
 MENU = ["pinn_static", "boundary", "param_penalty", "pinn_param", "adaptive_w", "data2", "pinn_random", "pideeponet", "periodic_param", "ritz",
-        "pideeponet_r", "pideeponet_r2", "qres", "ritznet", "pinn_static_interval"]
+        "pideeponet_r", "pideeponet_r2", "qres", "ritznet", "pinn_static_interval", "pinn_intparam"]
 OPTS = {
     "sgd": dict(cls=torch.optim.SGD, lr=0.05, args={}),
     "sgd_momentum": dict(cls=torch.optim.SGD, lr=0.05, args={"momentum": 0.9}),
     "adam": dict(cls=torch.optim.Adam, lr=0.01, args={}),
     "adam_steplr": dict(cls=torch.optim.Adam, lr=0.01, args={}, sched=torch.optim.lr_scheduler.StepLR, sargs={"step_size": 2, "gamma": 0.5}, freq=1),
     "sgd_steplr_f2": dict(cls=torch.optim.SGD, lr=0.05, args={}, sched=torch.optim.lr_scheduler.StepLR, sargs={"step_size": 1, "gamma": 0.5}, freq=2),
+    # optimizer arguments whose configured value is "falsy" but differs from the class default (AdamW: weight_decay 0.01, amsgrad False)
+    "adamw_wd0": dict(cls=torch.optim.AdamW, lr=0.01, args={"weight_decay": 0.0, "amsgrad": True}),
 }
 
 
@@ -59,6 +61,7 @@ class World:
         self.model4 = tp.models.DeepRitzNet(X, U, width=3, depth=2)
         self.D = tp.models.Parameter(init=0.7, space=Space({"D": 1}))
         self.J = tp.models.Parameter(init=0.3, space=Space({"J": 1}))      # only used by the periodic condition
+        self.K = tp.models.Parameter(init=2, space=Space({"K": 1}))        # initial guess given as a Python int
         self.dom = tp.domains.Interval(X, 0.0, 1.0)
         self.conds = {}
         self._deeponet = None
@@ -129,6 +132,8 @@ class World:
             # a static sampler that draws a fresh set every second use: one sampling call per training step, no other
             c = Cn.PINNCondition(self.model, S.RandomUniformSampler(self.dom, 3).make_static(resample_interval=2), lambda u, x: u - 2.0 * x,
                                  weight=weight, name=kind)
+        elif kind == "pinn_intparam":
+            c = Cn.PINNCondition(self.model, S.GridSampler(self.dom, 3).make_static(), lambda u, x, K: K * u - x - 1.0, parameter=self.K, weight=weight, name=kind)
         elif kind == "qres":
             c = Cn.PINNCondition(self.model3, S.GridSampler(self.dom, 4).make_static(), lambda u, x: u - torch.cos(2 * x), weight=weight, name=kind)
         elif kind == "periodic_param":
